@@ -119,6 +119,7 @@ func verifCache(raw json.RawMessage) any {
 		tick()
 		barrier()
 		settle("phase tick did not settle")
+		barrier()
 	}
 	names := map[string]bool{}
 	for _, call := range c.Calls {
@@ -222,6 +223,10 @@ func verifCache(raw json.RawMessage) any {
 		}
 		barrier()
 		settle("callbacks after " + call.Op + " did not finish")
+		// an expiry callback (cache.Del) ends with RemoveTimer: its goroutine is gone as soon as the wheel loop has
+		// TAKEN that call, possibly before the loop has carried it out; one more synchronous call to the loop makes
+		// sure the index is read after it
+		barrier()
 		if !gd.ok() {
 			break
 		}
